@@ -11,7 +11,7 @@ EXTRA = {
  "C13-replay-sort-by-file-id": ["C02"],
  "R2-C05-dereference-unconditional-cleanup": ["C01"], "R2-C07-filled-not-refreshed": ["C02"],
  "R2-C16-validate-skips-newer-index": ["C09"], "R2-C01-cleanup-with-record-id": ["C09"],
- "R2-C09-drop-index-ignores-id": ["C02"], "R2-C15-cleanup-not-woken-while-files-queued": [], 
+ "R2-C09-drop-index-ignores-id": ["C02"], "R2-C15-cleanup-not-woken-while-files-queued": [],
  "C11-deferral-skips-queue-scan": [], "C09-reindex-progress-not-reset": [],
 }
 only = sys.argv[1:]
